@@ -51,6 +51,9 @@ type tcase struct {
 	s2s   bool
 	local jid.JID
 	items []item
+	// the application has closed its output stream before the peer's input is
+	// served: replies cannot be written any more, the framing must not change
+	outputClosed bool
 }
 
 var conds = []string{"bad-format", "conflict", "host-unknown", "not-authorized", "policy-violation", "system-shutdown", "undefined-condition", "not-well-formed"}
@@ -141,6 +144,7 @@ func genCase(t *rapid.T) tcase {
 	if tc.s2s {
 		ns = stanza.NSServer
 	}
+	tc.outputClosed = rapid.IntRange(0, 5).Draw(t, "outputclosed") == 0
 	n := rapid.IntRange(1, 6).Draw(t, "nitems")
 	for i := 0; i < n; i++ {
 		var it item
@@ -214,7 +218,7 @@ func (tc tcase) input() string {
 
 func (tc tcase) String() string {
 	var sb strings.Builder
-	fmt.Fprintf(&sb, "s2s=%v local=%s input=%q progs=[", tc.s2s, tc.local, tc.input())
+	fmt.Fprintf(&sb, "s2s=%v local=%s output-closed-first=%v input=%q progs=[", tc.s2s, tc.local, tc.outputClosed, tc.input())
 	for _, it := range tc.items {
 		if it.kind == "elem" {
 			fmt.Fprintf(&sb, "%s:%d:%d ", it.prog.mode, it.prog.k, it.prog.extra)
@@ -325,6 +329,11 @@ func check(t interface {
 	if err != nil {
 		t.Fatalf("harness: ReadySession: %v", err)
 	}
+	if tc.outputClosed {
+		if err := s.Close(); err != nil {
+			t.Fatalf("harness: Close: %v", err)
+		}
+	}
 	rec := &recorder{}
 	for _, it := range tc.items {
 		if it.kind == "elem" {
@@ -368,6 +377,15 @@ loop:
 		}
 	}
 
+	if tc.outputClosed && len(rec.inv) < len(want) {
+		// a reply that cannot be written may end Serve early (with an error):
+		// what was served must still be a prefix of the expected framing
+		if serveErr == nil {
+			fail("handler invoked %d times, expected %d, but Serve returned nil", len(rec.inv), len(want))
+		}
+		want = want[:len(rec.inv)]
+		end = "cut-short"
+	}
 	if len(rec.inv) != len(want) {
 		fail("handler invoked %d times, expected %d (one per top-level element before the first stream-level construct); serve error: %v", len(rec.inv), len(want), serveErr)
 	}
@@ -433,6 +451,11 @@ loop:
 		}
 	}
 
+	if tc.outputClosed {
+		// with the output closed any reply the library owes fails to be written
+		// and may end Serve with that error: only the framing is asserted
+		end = "cut-short"
+	}
 	switch end {
 	case "close":
 		if serveErr != nil {
@@ -494,6 +517,9 @@ func classify(tc tcase) (nontrivial bool, classes []string) {
 	}
 	if tc.s2s {
 		classes = append(classes, "s2s")
+	}
+	if tc.outputClosed {
+		classes = append(classes, "output-closed-before-serving")
 	}
 	return (elems >= 2 && partial >= 1) || nested >= 1, classes
 }
